@@ -15,7 +15,7 @@ EXTENDS Integers, Sequences, FiniteSets, TLC
 CONSTANTS Tokens,      \* line contents at the source, e.g. {"a", "b"}
           MaxSrc,      \* lines at the source
           MaxStages,
-          Kinds,       \* subset of {"mapx", "fn", "dup", "tac", "errtee", "cast", "ifa", "sw", "var", "tryf", "trys", "tpf"}
+          Kinds,       \* subset of {"mapx", "fn", "dup", "tac", "errtee", "cast", "ifa", "sw", "var", "tryf", "trys", "tpf", "ffif", "fsif"}
           Cap          \* channel capacity in lines (stands for the 1 MiB buffer)
 
 \* a line is a sequence of one-character strings; the renderer concatenates them
@@ -51,6 +51,12 @@ StageOut(k, in) ==
       [] k = "trys"   -> MapSeq(in, LAMBDA l : <<"s">> \o l)
       \* foreach v { trypipe { fail | out never; out never2 }; out "p$v" }
       [] k = "tpf"    -> MapSeq(in, LAMBDA l : <<"p">> \o l)
+      \* (two murex stages rendered as one) a function that passes its lines on and then FAILS, piped into `if` used as a
+      \* method: `-> qf -> if { out T } else { out F }` - the condition is the upstream's output AND its exit number,
+      \* which is final only when the upstream has closed its stdout: always F, whatever the schedule (seeded change C03d)
+      [] k = "ffif"   -> <<<<"F">>>>
+      \* the same with a function that succeeds: T (also on empty output: then the exit number alone decides)
+      [] k = "fsif"   -> <<<<"T">>>>
 StageErr(k, in) == IF k = "errtee" THEN MapSeq(in, LAMBDA l : <<"e">> \o l) ELSE <<>>
 
 RECURSIVE RunStages(_, _, _)
@@ -105,12 +111,14 @@ SrcClose ==
     /\ closed' = [closed EXCEPT ![1] = TRUE]
     /\ UNCHANGED <<pipe, srcpos, ch, pend, acc, eof, err>>
 
+\* stages that read their whole input before they print
+Agg(k) == k \in {"tac", "ffif", "fsif"}
 \* stage i takes one line
 Read(i) ==
     /\ i \in 1..NS /\ pend[i] = <<>> /\ ~eof[i] /\ ch[i] # <<>>
     /\ LET l == Head(ch[i]) k == pipe.stages[i] IN
          /\ ch' = [ch EXCEPT ![i] = Tail(@)]
-         /\ IF k = "tac"
+         /\ IF Agg(k)
               THEN acc' = [acc EXCEPT ![i] = Append(@, l)] /\ UNCHANGED pend
               ELSE pend' = [pend EXCEPT ![i] = StageOut(k, <<l>>)] /\ UNCHANGED acc
          /\ err' = err \o StageErr(k, <<l>>)
@@ -125,7 +133,7 @@ Write(i) ==
 SeeEof(i) ==
     /\ i \in 1..NS /\ pend[i] = <<>> /\ ~eof[i] /\ ch[i] = <<>> /\ closed[i]
     /\ eof' = [eof EXCEPT ![i] = TRUE]
-    /\ pend' = [pend EXCEPT ![i] = IF pipe.stages[i] = "tac" THEN MxRev(acc[i]) ELSE <<>>]
+    /\ pend' = [pend EXCEPT ![i] = IF Agg(pipe.stages[i]) THEN StageOut(pipe.stages[i], acc[i]) ELSE <<>>]
     /\ UNCHANGED <<pipe, srcpos, ch, closed, acc, err>>
 \* ... and closes its own output when it has written everything
 Close(i) ==
